@@ -121,6 +121,29 @@ func (fr *frame) execBlock(b *ssa.BasicBlock, st *bstate) {
 				bind = append(bind, fr.val(bv))
 			}
 			f.closures[r] = &closureInfo{fn: fn, bind: bind}
+			// sweep kind "closurecells": a closure handed out as a per-request handler shares
+			// no variable with its creator (and so with no other invocation): it captures
+			// values only, never a variable cell.  Structural obligation.
+			if f.sweep["closurecells"] {
+				for i, bv := range x.Bindings {
+					goal := "true"
+					if _, isCell := bv.(*ssa.Alloc); isCell && i < len(fn.FreeVars) && fn.FreeVars[i].Referrers() != nil {
+						// go/ssa captures every variable by reference; a capture is harmless when the
+						// closure only ever loads from the cell
+						for _, u := range *fn.FreeVars[i].Referrers() {
+							if ld, ok := u.(*ssa.UnOp); ok && ld.Op == token.MUL {
+								continue
+							}
+							if _, ok := u.(*ssa.DebugRef); ok {
+								continue
+							}
+							goal = "false"
+						}
+					}
+					f.oblige(st, fmt.Sprintf("%s#closure-shares-no-variable:%s:%s", fnShortName(fr.fn), fn.Name(), fn.FreeVars[i].Name()), "safety", f.sweepTags, goal,
+						"the closure writes (or hands out the address of) the captured variable "+fn.FreeVars[i].Name()+": every invocation shares it", posStr(f.e.fset, x.Pos()))
+				}
+			}
 			fr.vals[x] = Val{K: KRef, T: x.Type(), Tm: r}
 			f.exact["MakeClosure"]++
 		case *ssa.Slice:
